@@ -306,6 +306,6 @@ def oracle_constant(case):
 
 
 SUBS = [
-    Sub('laws', strategy(), oracle, quick=480, thorough=12800, use_target=False),
-    Sub('point_mass', constant_strategy(), oracle_constant, quick=320, thorough=6400),
+    Sub('laws', strategy(), oracle, quick=480, thorough=51200, use_target=False),
+    Sub('point_mass', constant_strategy(), oracle_constant, quick=320, thorough=25600),
 ]
